@@ -88,6 +88,9 @@ class DatagramEndpoint:
         self.__transport: asyncio.DatagramTransport = transport
         self.__protocol: DatagramEndpointProtocol = protocol
 
+        # Disable in-memory byte buffering.
+        transport.set_write_buffer_limits(0)
+
     def __del__(self, *, _warn: _utils.WarnCallback = warnings.warn) -> None:
         try:
             transport = self.__transport
